@@ -154,7 +154,7 @@ RV64(F) ==
   LET lv == F.lv
       n == Len(lv)
       flat == n \in {1, 2} /\ (\A j \in 1..n : ~lv[j].un /\ ~lv[j].ptr) /\ (\E j \in 1..n : lv[j].cl = "flt")
-              /\ (n = 2 => lv[1].off + lv[1].sz <= lv[2].off)
+              \* a bit-field counts as a field of its declared type even when that storage unit overlaps the other field
   IN IF flat THEN <<"flat">> \o [j \in 1..n |-> IF lv[j].cl = "flt" THEN "f" ELSE "i"] \o [j \in 1..n |-> lv[j].sz]
      ELSE IF F.size <= 16 THEN <<"int", CeilDiv(F.size, 8), F.align = 16>>
      ELSE <<"mem">>
